@@ -127,3 +127,72 @@ def check(F, ck, rule):
         except poly.Unknown as ex:
             ck.observe('%s opening %s not applicable: expression outside the polynomial normaliser (%s)' % (rule, f, ex))
     ck.floor(rule, 'opening-set lengths located in both decoder and validator', n, 9)
+
+
+def target_leaves(F, ck, rule):
+    """R06.9: the leaf sizes with which CircuitBuilder::add_virtual_proof creates the FRI proof targets equal the oracle table
+    (number of polynomials, plus salt exactly for blinding oracles) - the same comparison as for the byte decoder"""
+    E = poly.Ev(F)
+    av = [f for f in F.find('CircuitBuilder::add_virtual_proof', crate='plonky2')]
+    fo = [f for f in F.find('CommonCircuitData::fri_oracles', crate='plonky2')]
+    if len(av) != 1 or len(fo) != 1:
+        ck.ob(rule, 'anchor:add_virtual_proof', False, 'ANCHOR-MISSING: CircuitBuilder::add_virtual_proof / CommonCircuitData::fri_oracles')
+        return
+    av, fo = av[0], fo[0]
+    env = {}
+    for s_ in walk(av.body):
+        if s_.get('k') == 'Let' and 'i' in s_ and s_['p'].get('k') == 'Bind' and s_['p']['id'] not in env:
+            try:
+                env[s_['p']['id']] = E.ev(av, s_['i'], env, 4)
+            except poly.Unknown as ex:
+                env[s_['p']['id']] = ex
+    # the vector handed to add_virtual_fri_proof: its literal elements, then the pushes
+    call = [x for x in walk(av.body) if x.get('k') == 'MCall' and x.get('n') == 'add_virtual_fri_proof' and x.get('a')]
+    if not call:
+        ck.ob(rule, 'anchor:add_virtual_fri_proof', False, 'add_virtual_proof no longer calls add_virtual_fri_proof', '%s:%d' % (av.file, av.line))
+        return
+    v = call[0]['a'][0]
+    while v.get('k') in ('Ref', 'Un', 'Cast'):
+        v = v['e']
+    elems = []
+    if v.get('k') == 'Local':
+        vid = v['id']
+        for s_ in walk(av.body):
+            if s_.get('k') == 'Let' and 'i' in s_ and s_['p'].get('k') == 'Bind' and s_['p']['id'] == vid:
+                arrs = [y for y in walk(s_['i']) if y.get('k') == 'Array']
+                if arrs:
+                    elems = list(arrs[0]['a'])
+        for x in walk(av.body):
+            if x.get('k') == 'MCall' and x.get('n') == 'push' and x.get('a'):
+                r = x['r']
+                while r.get('k') in ('Ref', 'Un'):
+                    r = r['e']
+                if r.get('k') == 'Local' and r['id'] == vid:
+                    elems.append(x['a'][0])
+    oracles = [n for n in walk(fo.body) if n.get('k') == 'Struct' and (n.get('d') or '').endswith('FriOracleInfo')]
+    ck.ob(rule, 'target-leaf-count', len(elems) == len(oracles) and len(elems) >= 4, '%d target leaf sizes, %d oracles' % (len(elems), len(oracles)) if len(elems) == len(oracles) else
+          'add_virtual_proof creates %d leaf sizes but the circuit has %d FRI oracles' % (len(elems), len(oracles)), '%s:%d' % (av.file, av.line))
+    for i, (el, o) in enumerate(zip(elems, oracles)):
+        try:
+            pr = E.ev(av, el, env, 4)
+            of = dict(o['f'])
+            po = E.ev(fo, of['num_polys'], {}, 4)
+            bl = None
+            b = of.get('blinding')
+            if b is not None and b.get('k') == 'Field' and b['e'].get('k') == 'Def':
+                c = F.fns.get(b['e']['d'])
+                if c is not None and c.body is not None and c.body.get('k') == 'Struct':
+                    lit = dict(c.body['f']).get('blinding')
+                    if lit is not None and lit.get('k') == 'Lit':
+                        bl = bool(lit['v']) if not isinstance(lit['v'], str) else lit['v'] == 'true'
+            salt = {m: c for m, c in pr.items() if any(s.startswith('salt_size') for s in m)}
+            body = {m: c for m, c in pr.items() if m not in salt}
+            ok = body == po
+            ck.ob(rule, 'target-leaf-len:oracle%d' % i, ok, 'target and oracle table agree: %s' % poly.show(po) if ok else
+                  'TARGET SHAPE MISMATCH: add_virtual_proof sizes the leaf of oracle %d with %s but that oracle commits to %s polynomials: a valid inner proof can no longer be assigned (or is assigned to targets of another shape)' % (i, poly.show(body), poly.show(po)), el.get('s'))
+            if bl is not None:
+                oks = (len(salt) == 1 and list(salt.values()) == [1]) if bl else not salt
+                ck.ob(rule, 'target-leaf-salt:oracle%d' % i, oks, 'salt %s as the oracle is %sblinding' % ('added' if bl else 'absent', '' if bl else 'not ') if oks else
+                      'add_virtual_proof %s salt for oracle %d whose blinding flag is %s: under zero-knowledge (hiding) the target leaf has another size than the proof leaf' % ('adds' if salt else 'omits', i, bl), el.get('s'))
+        except poly.Unknown as ex:
+            ck.observe('%s target leaf %d not applicable: %s' % (rule, i, ex))
